@@ -1697,10 +1697,11 @@ func (s *Netceptor) handleMessageData(md *MessageData) error {
 			return nil
 		}
 		s.listenerLock.RUnlock()
+		// The receive channel is never closed: several deliveries can be parked here at once, and closing it
+		// from more than one of them (or while another is still offering its message) panics. Readers watch
+		// the socket's context instead.
 		select {
 		case <-pc.context.Done():
-			close(pc.recvChan)
-
 			return nil
 		case pc.recvChan <- md:
 		}
